@@ -101,11 +101,13 @@ func checkRead(c *readCase) (msg string, delivered bool) {
 		// determine the complete result: if the input cut off at the fault
 		// offset reads exactly like the whole input, ignoring what follows is
 		// legitimate.
-		// This applies to PFB-framed input only, where an end marker closes
-		// the stream and whatever follows it is not part of it; every other
-		// format is read to the end of the input, so a fault anywhere in it is
+		// This applies to input with an end marker only (PFB framing, AFM),
+		// where the marker closes the stream and whatever follows it is not
+		// part of it; every other format is read to the end of the input, so a fault anywhere in it is
 		// a fault the call has met.
-		if c.Target == targets.PFB.Name || len(c.Data) > 0 && c.Data[0] == 0x80 {
+		// (AFM files have an end marker as well, the EndFontMetrics line: a
+		// reader that stops there never meets what follows.)
+		if c.Target == targets.PFB.Name || c.Target == targets.AFM.Name || len(c.Data) > 0 && c.Data[0] == 0x80 {
 			full, ferr := tg.Run(bytes.NewReader(c.Data))
 			cut, cerr := tg.Run(bytes.NewReader(c.Data[:c.At]))
 			if ferr == nil && cerr == nil && full == cut {
@@ -139,7 +141,7 @@ func genReadInput(t *rapid.T) (target string, data []byte, label string, truncat
 func TestP1ReadFaults(t *testing.T) {
 	rec := ev.New("C13", "readfaults")
 	defer rec.Finish(t)
-	rec.Rule("for each generated input (programs incl. eexec sections, single-CMap files, Type 1 fonts in the four containers from both writers, AFM files, PFB streams; up to 8 KB): a read fault (a distinct sentinel error, or for half of the inputs io.ErrUnexpectedEOF in the persistent forms) at EVERY byte offset 0..len, with the error returned alone or together with the last bytes before the offset, persistent (every later read fails too; both forms) or transient (error returned alone once, reading would continue normally afterwards); for Type 1 and CMap files additionally a truncation at EVERY offset; for programs additionally the persistent fault at every offset in a second call on the same interpreter with the same reader object (a first call read a short program to its end; the object was reloaded). Oracle: if the fault was delivered to the library (the wrapper records it) and the bytes before it do not already determine the complete result (the input cut off at the fault offset reads differently from the whole input - otherwise a buffering reader may legitimately never look at the fault) the call must return a non-nil error and must not panic; a truncated file must give an error or the result of the complete file. Non-trivial: fault delivered and strictly inside the data; distinct by (input, offset, variant).")
+	rec.Rule("for each generated input (programs incl. eexec sections, single-CMap files, Type 1 fonts in the four containers from both writers, AFM files, PFB streams; up to 8 KB): a read fault (a distinct sentinel error, or for half of the inputs io.ErrUnexpectedEOF in the persistent forms) at EVERY byte offset 0..len, with the error returned alone or together with the last bytes before the offset, persistent (every later read fails too; both forms) or transient (error returned alone once, reading would continue normally afterwards); for Type 1 and CMap files additionally a truncation at EVERY offset; for programs additionally the persistent fault at every offset in a second call on the same interpreter with the same reader object (a first call read a short program to its end; the object was reloaded). Oracle: if the fault was delivered to the library (the wrapper records it) and the bytes before it do not already determine the complete result (for the two formats with an end marker, PFB framing and AFM: the input cut off at the fault offset reads differently from the whole input - otherwise a reader that stops at the marker may legitimately never look at the fault; all other formats are read to the end of the input) the call must return a non-nil error and must not panic; a truncated file must give an error or the result of the complete file. Non-trivial: fault delivered and strictly inside the data; distinct by (input, offset, variant).")
 	ev.SetupRapid(60, 1600)
 	rapid.Check(t, func(t *rapid.T) {
 		target, data, label, trunc := genReadInput(t)
